@@ -235,6 +235,22 @@ func resolverEntries() []c04Entry {
 			}
 		}},
 		{"pypi.Resolve(requirement,marker)", func(s string) {
+			for again := 0; again < 2; again++ { // the second resolution meets the resolver's caches filled by the first
+				c04PyPIResolve(s)
+			}
+		}},
+	}
+}
+
+func c04PyPIResolve(s string) {
+	mk := func(sys resolve.System, name, ver string) resolve.Version {
+		return resolve.Version{VersionKey: resolve.VersionKey{PackageKey: resolve.PackageKey{System: sys, Name: name}, VersionType: resolve.Concrete, Version: ver}}
+	}
+	req := func(sys resolve.System, name, ver string, t dep.Type) resolve.RequirementVersion {
+		return resolve.RequirementVersion{VersionKey: resolve.VersionKey{PackageKey: resolve.PackageKey{System: sys, Name: name}, VersionType: resolve.Requirement, Version: ver}, Type: t}
+	}
+	{
+		{
 			// A fresh PyPI resolver allocates three 10 000-entry caches (2.5 ms). One resolver per worker
 			// process is reused over a swappable client; package names carry a per-input counter so that no
 			// cache entry (keyed by package/requirement) can be shared between two inputs.
@@ -260,7 +276,7 @@ func resolverEntries() []c04Entry {
 				g.Canon()
 				_ = g.String()
 			}
-		}},
+		}
 	}
 }
 
@@ -580,6 +596,7 @@ func C04One(argv []string) {
 						}
 					}()
 					e.f(in)
+					e.f(in) // again: entries that keep a long-lived object (the shared PyPI resolver) see their caches warm
 				}()
 				fmt.Println("OK")
 				os.Exit(0)
